@@ -47,6 +47,8 @@ def rule_route(ck, only=None):
     for name, fmt, ext in (("make_bin", "bin", ".bin"), ("make_raw", "raw", ""), ("make_bk0010_rom", "bin", ".bin"), ("make_wav", "bk_wav", ".wav"), ("make_turbo_wav", "bk_turbo_wav", ".wav")):
         cases.append(("outputs", f'{name} "out.x"', lambda sh, name=name: ins(sh, name, [q(sh, "out.x")]), ("emitted", fmt, "DIR/out.x")))
         cases.append(("outputs", f"{name}", lambda sh, name=name: ins(sh, name, []), ("emitted", fmt, "src/prog" + ext)))
+    # a directive with more than one declared operand takes them all (the operand count is counted per parameter)
+    cases.append(("outputs", 'make_wav "out.x", "TAPE"', lambda sh: ins(sh, "make_wav", [q(sh, "out.x"), q(sh, "TAPE")]), ("emitted", "bk_wav", "DIR/out.x")))
     # a path made of pieces: "p" <101> ".x"  is the string pA.x  ('<n>' is the character with code n)
     cases.append(("outputs", 'make_raw "p"<101>".x"', lambda sh: ins(sh, "make_raw", [sh.mk(T("StringConcatenation"), None, None, [q(sh, "p"), sh.mk(T("AngleBracketedChar"), None, None, sh.number("101", 65)), q(sh, ".x")])]),
                   ("emitted", "raw", "DIR/pA.x")))
@@ -67,6 +69,7 @@ def rule_route(ck, only=None):
     # data directives through operand cooking
     cases.append(("data", ".byte 1, 377", lambda sh: ins(sh, ".byte", [sh.number("1", 1), sh.number("377", 255)]), ("bytes", b"\x01\xff")))
     cases.append(("data", ".word 1, 177777", lambda sh: ins(sh, ".word", [sh.number("1", 1), sh.number("177777", 0xffff)]), ("bytes", b"\x01\x00\xff\xff")))
+    cases.append(("data", ".byte #5  (a hash where none belongs: reported, then taken as 5)", lambda sh: ins(sh, ".byte", [sh.un("immediate", sh.number("5", 5))]), ("error+bytes", "excess-hash", b"\x05")))
     cases.append(("data", ".blkb 3", lambda sh: ins(sh, ".blkb", [sh.number("3", 3)]), ("bytes", b"\x00\x00\x00")))
     cases.append(("data", ".blkw 2", lambda sh: ins(sh, ".blkw", [sh.number("2", 2)]), ("bytes", b"\x00\x00\x00\x00")))
     # what is neither an instruction nor a directive: a defined constant starts an implicit word list, anything else is an error
